@@ -836,7 +836,9 @@ fn create_archive(
         return Ok(());
     }
 
-    Ok(())
+    // Legacy batch mode is not implemented in this build: fail instead of reporting success
+    // without writing an archive.
+    anyhow::bail!("--batch (legacy batch mode) is not supported; omit --batch to use the streaming queue mode")
 }
 
 fn write_bin<P: AsRef<Path>>(path: P, data: &[u8]) -> Result<()> {
@@ -1139,31 +1141,29 @@ fn getset_command(
         anyhow::bail!("Must specify either sample names or --prefix");
     };
 
-    // If output file specified, extract to file
-    // Otherwise, extract to stdout (via temp file for simplicity)
-    if let Some(output_path) = output {
-        // Extract each sample to the output file (append mode)
-        for sample_name in &samples_to_extract {
-            if verbosity > 0 {
-                eprintln!("Extracting sample: {sample_name}");
-            }
-            decompressor.write_sample_fasta(sample_name, &output_path)?;
-        }
+    // Each sample is written to a temp file (write_sample_fasta creates/truncates its target)
+    // and then appended to the destination, so that several samples end up concatenated in
+    // request order both in an output file and on stdout.
+    let temp_path = std::env::temp_dir().join(format!("agc_extract_{}.fasta", std::process::id()));
+    let mut destination: Box<dyn Write> = if let Some(output_path) = output {
+        Box::new(std::fs::File::create(output_path)?)
     } else {
-        // Extract to temp file then write to stdout
-        let temp_path =
-            std::env::temp_dir().join(format!("agc_extract_{}.fasta", std::process::id()));
-        for sample_name in &samples_to_extract {
-            if verbosity > 0 {
-                eprintln!("Extracting sample: {sample_name}");
-            }
-            decompressor.write_sample_fasta(sample_name, &temp_path)?;
+        Box::new(io::stdout())
+    };
+    for sample_name in &samples_to_extract {
+        if verbosity > 0 {
+            eprintln!("Extracting sample: {sample_name}");
         }
-        // Write temp file to stdout
+        let written = decompressor.write_sample_fasta(sample_name, &temp_path);
+        if written.is_err() {
+            let _ = std::fs::remove_file(&temp_path);
+        }
+        written?;
         let contents = std::fs::read(&temp_path)?;
-        io::stdout().write_all(&contents)?;
-        std::fs::remove_file(&temp_path)?;
+        destination.write_all(&contents)?;
     }
+    destination.flush()?;
+    let _ = std::fs::remove_file(&temp_path);
 
     decompressor.close()?;
     Ok(())
